@@ -103,7 +103,19 @@ func sigModel(sig []sigInput, initShapes map[string][]int) []byte {
 				dims[a] = nil
 			}
 		}
-		g.Input = append(g.Input, valueInfo(in.name, 1, dims...))
+		vi := valueInfo(in.name, 1, dims...)
+		// rarely populated field: the denotation of a dimension has no influence on its size
+		for a, d := range vi.Type.GetTensorType().Shape.Dim {
+			switch (len(in.name) + 3*a + i) % 5 {
+			case 1:
+				d.Denotation = "DATA_BATCH"
+			case 2:
+				d.Denotation = "DATA_CHANNEL"
+			case 3:
+				d.Denotation = "DATA_FEATURE"
+			}
+		}
+		g.Input = append(g.Input, vi)
 		out := fmt.Sprintf("y%d", i)
 		g.Node = append(g.Node, mkNode("Abs", []string{in.name}, []string{out}))
 		g.Output = append(g.Output, valueInfoNoShape(out))
@@ -166,6 +178,22 @@ func TestC13(t *testing.T) {
 		}
 		if _, err := m.InputDimSize("nope", 0); err == nil {
 			rt.Fatalf("C13 violated: InputDimSize of an undeclared input gives no error")
+		}
+		// what the introspection methods return belongs to the caller: writing to it (resolving a
+		// symbolic dimension, dropping an entry) must not change what Run enforces
+		if rapid.IntRange(0, 3).Draw(rt, "scribble") == 0 {
+			for name, sh := range shapes {
+				for a := range sh {
+					sh[a].IsDynamic = !sh[a].IsDynamic
+					sh[a].Size += 7
+				}
+				if rapid.Bool().Draw(rt, "dropEntry") {
+					delete(shapes, name)
+				}
+			}
+			for i := range names {
+				names[i] = "scribbled"
+			}
 		}
 
 		// ---- build the supplied set
@@ -346,6 +374,28 @@ func TestC13(t *testing.T) {
 		}
 		if rr.err != nil {
 			rt.Fatalf("C13 violated by %s: conforming input set rejected: %v", desc, rr.err)
+		}
+		// the same tensor object, reshaped in place by its owner to another rank, is a different
+		// supplied set: it must be judged again
+		if rapid.IntRange(0, 3).Draw(rt, "reshapeSameObject") == 0 {
+			for _, in := range sig {
+				t, ok := feed[in.name]
+				if !ok || in.shadowed || len(t.Shape()) < 2 {
+					continue
+				}
+				if err := t.Reshape(prod(t.Shape())); err != nil {
+					break
+				}
+				r2 := runModel(m, feed)
+				ev.Class("C13", "same-object-reshaped-second-run")
+				if r2.panicked {
+					rt.Fatalf("C13 violated by %s: second Run with %s flattened in place panics: %v", desc, in.name, r2.panicVal)
+				}
+				if r2.err == nil {
+					rt.Fatalf("C13 violated by %s: after a valid Run the same tensor object %s, reshaped in place to rank 1, was accepted", desc, in.name)
+				}
+				return
+			}
 		}
 		for i, in := range sig {
 			out := rr.outs[fmt.Sprintf("y%d", i)]
